@@ -421,6 +421,455 @@ def parse_cases(ctx):
     ctx.extra['split_exhaustive_code_points'] = 0x3100
 
 
+# ------------------------------------------------------------------ tie (ii): real cloud-safe runs
+RUN_LEAK = 'c20-run-leaks-absolute-path'
+RUN_CORR = 'corr:Sanitize.run_sinks'
+RUN_NO_OUTPUT = 'c20-run-writes-no-output-record'
+KNOWN_LEAK_CLASSES = (F10, F14, F18)
+RUN_CLASSES = ['success', 'marker-path-missing', 'marker-unknown-gene', 'stats-without-sum', 'query-path-missing',
+               'directory-as-file', 'csv-directory-missing', 'worker-failure']
+# classes whose failure happens inside the try block of run_mapping with a readable query file: the finally block
+# then writes the JSON and the HDF5 record (a missing / unreadable query file makes the finally block itself raise
+# in read_uns_from_h5ad before anything is written: only the log file exists then)
+WRITES_RECORD = {'success', 'marker-path-missing', 'marker-unknown-gene', 'stats-without-sum', 'csv-directory-missing',
+                 'worker-failure'}
+FAULT_MODES = ('kill', 'exit3', 'raise')
+FAULT_POINTS = ('before', 'mid', 'after')
+
+
+def host_name(rr, used, ext=''):
+    """A file / directory name as hosts have them: letters, digits and blank-free punctuation."""
+    for _ in range(100):
+        n = rr.randrange(2, 8)
+        s = ''.join(rr.choice(NAME_ALPHA) if rr.random() < 0.8 else rr.choice(NAME_PUNCT) for _ in range(n))
+        if s.strip('.') == '' or (s + ext) in used:
+            continue
+        used.add(s + ext)
+        return s + ext
+    s = f'n{len(used)}{ext}'
+    used.add(s)
+    return s
+
+
+def make_run_inputs(top, sseed):
+    """The generated data set of one scenario, in a generated directory layout under top."""
+    import random
+    from harness import pipeline, trees
+    rr = random.Random(f'{sseed}-inputs')
+    used = set()
+    layout = top
+    for _ in range(rr.randrange(0, 3)):
+        layout = layout / host_name(rr, used)
+    in_dir = layout / host_name(rr, used)
+    in_dir.mkdir(parents=True)
+    while True:
+        tree = trees.random_tree(rr, max_levels=3, max_leaves=6)
+        if len(tree.model[0]) >= 2:       # the election runs at least once per chunk
+            break
+    n_cells = rr.randrange(4, 9)
+    sc = pipeline.gen_scenario(rr, n_cells=n_cells, tree=tree)
+    inp = {'layout': layout, 'in_dir': in_dir, 'sc': sc, 'n_cells': n_cells, 'used': used,
+           'stats': in_dir / host_name(rr, used, '.h5'),
+           'markers': in_dir / host_name(rr, used, '.json'),
+           'query': in_dir / host_name(rr, used, '.h5ad')}
+    pipeline.write_stats(inp['stats'], sc)
+    pipeline.write_markers(inp['markers'], sc)
+    pipeline.write_query(inp['query'], sc, encoding=rr.choice(['dense', 'csr']))
+    return inp
+
+
+class Capture:
+    """Harness-side wrappers of module-level names of the two CLI modules: every top-level call of
+    sanitize_paths is recorded with its raw argument and the file-system facts its words can reach AT THE TIME OF
+    THE CALL, and the CommandLog the run creates is kept (its lines are the raw log even when the code under
+    test does not pass them through sanitize_paths)."""
+
+    def __init__(self):
+        self.calls = []
+        self.logs = []
+
+    def __enter__(self):
+        import cell_type_mapper.cli.from_specified_markers as fsm
+        import cell_type_mapper.cli.cli_log as cl
+        self.mods = (fsm, cl)
+        self.saved = [(fsm, 'sanitize_paths', getattr(fsm, 'sanitize_paths', None)),
+                      (cl, 'sanitize_paths', getattr(cl, 'sanitize_paths', None)),
+                      (fsm, 'CommandLog', getattr(fsm, 'CommandLog', None))]
+        cap = self
+
+        def wrap(real, where):
+            def sanitize_paths(x):
+                rec = {'where': where, 'arg': copy.deepcopy(x)}
+                try:
+                    rec['facts'] = fs_facts(x)
+                except OSError:
+                    rec['facts'] = None
+                cap.calls.append(rec)
+                out = real(x)
+                rec['out'] = copy.deepcopy(out)
+                return out
+            return sanitize_paths
+        for mod, name, real in self.saved[:2]:
+            if real is not None:
+                setattr(mod, name, wrap(real, mod.__name__.rsplit('.', 1)[-1]))
+        real_log = self.saved[2][2]
+        if real_log is not None:
+            def CommandLog(*a, **k):
+                lg = real_log(*a, **k)
+                cap.logs.append(lg)
+                return lg
+            fsm.CommandLog = CommandLog
+        return self
+
+    def __exit__(self, *exc):
+        for mod, name, real in self.saved:
+            if real is not None:
+                setattr(mod, name, real)
+        return False
+
+
+def run_spec(sseed, idx, cls, use_log, use_tmp):
+    return {'sseed': sseed, 'idx': idx, 'run_class': cls, 'log_path_given': use_log, 'tmp_dir_given': use_tmp}
+
+
+def one_run(top, inp, spec):
+    """One real run_mapping(cloud_safe=True); returns the observation (sinks, raw log, facts)."""
+    import gc
+    import io
+    import random
+    import shutil
+    import h5py
+    from harness import pipeline, faults
+    from cell_type_mapper.cli.from_specified_markers import run_mapping as real
+    rr = random.Random(f"{spec['sseed']}-run-{spec['idx']}")
+    cls = spec['run_class']
+    used = inp['used']
+    d = inp['layout'] / host_name(rr, used)
+    d.mkdir()
+    out_dir = d / host_name(rr, used)
+    out_dir.mkdir()
+    scratch = d / host_name(rr, used)
+    scratch.mkdir()
+    paths = {k: inp[k] for k in ('stats', 'markers', 'query')}
+    detail = None
+    if cls == 'marker-path-missing':
+        paths['markers'] = inp['in_dir'] / host_name(rr, set(used), '.json')
+    elif cls == 'query-path-missing':
+        paths['query'] = inp['in_dir'] / host_name(rr, set(used), '.h5ad')
+    elif cls == 'marker-unknown-gene':
+        m = dict(inp['sc'].markers)
+        bad = d / host_name(rr, used, '.json')
+        table = {k: [pipeline.gname(g) for g in v] for k, v in m.items()}
+        table['None'] = ['unknown_gene_a', 'unknown_gene_b']
+        with open(bad, 'w') as f:
+            json.dump(table, f)
+        paths['markers'] = bad
+    elif cls == 'stats-without-sum':
+        bad = d / host_name(rr, used, '.h5')
+        shutil.copy(inp['stats'], bad)
+        with h5py.File(bad, 'a') as f:
+            del f['sum']
+        paths['stats'] = bad
+    elif cls == 'directory-as-file':
+        detail = rr.choice(['stats', 'markers', 'query'])
+        bad = d / host_name(rr, used, {'stats': '.h5', 'markers': '.json', 'query': '.h5ad'}[detail])
+        bad.mkdir()
+        paths[detail] = bad
+    n_proc = rr.choice([1, 2, 3])
+    chunk = rr.choice([1, 2, 3])
+    cfg = {
+        'query_path': str(paths['query']),
+        'extended_result_path': str(out_dir / host_name(rr, used, '.json')),
+        'csv_result_path': str(out_dir / host_name(rr, used, '.csv')) if rr.random() < 0.7 else None,
+        'hdf5_result_path': str(out_dir / host_name(rr, used, '.h5')),
+        # popped from the record; when there is no scratch directory the result buffer goes here
+        'extended_result_dir': str(scratch) if (not spec['tmp_dir_given'] or rr.random() < 0.5) else None,
+        'tmp_dir': str(scratch) if spec['tmp_dir_given'] else None,
+        'cloud_safe': True,
+        'log_path': str(out_dir / host_name(rr, used, rr.choice(['.txt', '.log', '']))) if spec['log_path_given'] else None,
+        'summary_metadata_path': None,
+        'obsm_key': None, 'obsm_clobber': False,
+        'max_gb': 1, 'flatten': rr.random() < 0.2, 'drop_level': None, 'map_to_ensembl': False,
+        'precomputed_stats': {'path': str(paths['stats'])},
+        'query_markers': {'serialized_lookup': str(paths['markers'])},
+        'type_assignment': {'n_processors': n_proc, 'chunk_size': chunk,
+                            'bootstrap_factor': 0.5, 'bootstrap_factor_lookup': None,
+                            'bootstrap_iteration': 5, 'rng_seed': rr.randrange(1000),
+                            'n_runners_up': rr.choice([0, 2]), 'normalization': 'log2CPM', 'min_markers': 2},
+    }
+    if cls == 'csv-directory-missing':
+        cfg['csv_result_path'] = str(out_dir / host_name(rr, set(used)) / host_name(rr, used, '.csv'))
+    plan = None
+    if cls == 'worker-failure':
+        k = -(-inp['n_cells'] // min(max(1, -(-inp['n_cells'] // n_proc)), chunk))
+        plan = {'stage': 'mapping', 'worker': rr.randrange(k), 'mode': rr.choice(FAULT_MODES),
+                'point': rr.choice(FAULT_POINTS)}
+        detail = plan
+    given = copy.deepcopy(cfg)
+    obs = {'spec': spec, 'detail': detail, 'config': given, 'error': None, 'fired': None}
+    buf = io.StringIO()
+    trace_dir = d / 'trace'
+    snapshot = None
+    # the system temporary directory of the run (where mkstemp_clean(dir=None) puts the marker cache when there is
+    # no scratch directory -- and leaves it, finding F9d): a directory of the layout, so that nothing stays in /tmp
+    import tempfile
+    systmp = d / host_name(rr, used)
+    systmp.mkdir()
+    old_tempdir = tempfile.tempdir
+    tempfile.tempdir = str(systmp)
+    with Capture() as cap:
+        if plan is not None:
+            faults.arm(['mapping'], fault=plan, trace_dir=trace_dir, poll_sleep=0.002)
+        try:
+            with contextlib.redirect_stdout(buf), contextlib.redirect_stderr(buf), warnings.catch_warnings():
+                warnings.simplefilter('ignore')
+                try:
+                    real(cfg, output_path=cfg['extended_result_path'], log_path=cfg['log_path'],
+                         hdf5_output_path=cfg['hdf5_result_path'])
+                    snapshot = [str(x) for x in cap.logs[-1].log] if cap.logs else None
+                except Exception as e:
+                    # taken while the traceback still holds the frames of the run: the FileTracker of a failed run
+                    # is finalised (and appends 'cleaning up' to the log) only after this handler
+                    snapshot = [str(x) for x in cap.logs[-1].log] if cap.logs else None
+                    obs['error'] = f'{exc_class(e)}: {e}'[:600]
+                    obs['etype'] = type(e).__name__
+                gc.collect()
+        finally:
+            tempfile.tempdir = old_tempdir
+            if plan is not None:
+                faults.settle()
+                obs['fired'] = any(r['ev'] == 'fault' for r in faults.read_trace(trace_dir))
+                faults.disarm()
+    # ---- what the run recorded
+    sinks = {}
+    jp = pathlib.Path(given['extended_result_path'])
+    if jp.is_file():
+        try:
+            blob = json.load(open(jp))
+            sinks['json'] = {'config': blob.get('config'), 'log': blob.get('log')}
+        except ValueError as e:
+            sinks['json'] = {'unreadable': str(e)[:200]}
+    hp = pathlib.Path(given['hdf5_result_path'])
+    if hp.is_file():
+        try:
+            with h5py.File(hp, 'r') as f:
+                meta = json.loads(f['metadata'][()].decode('utf-8')) if 'metadata' in f else None
+            if meta is not None:
+                sinks['hdf5'] = {'config': meta.get('config'), 'log': meta.get('log')}
+        except (OSError, ValueError, KeyError) as e:
+            sinks['hdf5'] = {'unreadable': str(e)[:200]}
+    if given['log_path'] is not None and pathlib.Path(given['log_path']).is_file():
+        sinks['log_file'] = open(given['log_path'], encoding='utf-8', errors='surrogateescape').read()
+    obs['sinks'] = sinks
+    # ---- the raw log and the file-system facts
+    raw = snapshot
+    if raw is None:
+        lists = [c['arg'] for c in cap.calls if isinstance(c['arg'], list)]
+        if lists:
+            raw = lists[-1]
+    obs['raw_log'] = raw
+    obs['sanitize_calls'] = [{'where': c['where'], 'type': type(c['arg']).__name__} for c in cap.calls]
+    cfg_calls = [c for c in cap.calls if isinstance(c['arg'], dict)]
+    log_calls = [c for c in cap.calls if isinstance(c['arg'], list)]
+    # facts at the time of the call when the code made the call, else as they are now
+    if cfg_calls and cfg_calls[0]['facts'] is not None:
+        obs['facts_config'] = cfg_calls[0]['facts']
+    else:
+        obs['facts_config'] = fs_facts(given)
+    facts = None
+    for c in log_calls:
+        if c['facts'] is not None and c['arg'] == raw:
+            facts = c['facts']
+    if facts is None and raw is not None:
+        facts = fs_facts(raw)
+    obs['facts_log'] = facts
+    obs['raw_log_args_differ'] = any(c['arg'] != raw for c in log_calls)
+    obs['dir'] = d
+    return obs
+
+
+def sink_strings(sinks):
+    """(sink name, string) for EVERY string of config and log of the JSON and HDF5 records and the log file."""
+    for name in ('json', 'hdf5'):
+        sk = sinks.get(name)
+        if not sk or 'unreadable' in sk:
+            continue
+        for s in strings_of(sk.get('config')):
+            yield f'{name}:config', s
+        for s in strings_of(sk.get('log')):
+            yield f'{name}:log', s
+    if 'log_file' in sinks:
+        yield 'log_file', sinks['log_file']
+
+
+def judge_run(ctx, obs, m_cfg, m_log, menc):
+    """(a) the records against Sanitize.run_sinks of the raw configuration / raw log, (b) the property on the
+    records."""
+    spec, sinks = obs['spec'], obs['sinks']
+    cls = spec['run_class']
+    rep = {'kind': 'run', 'spec': spec, 'detail': obs['detail'], 'config': obs['config'], 'error': obs['error'],
+           'sinks_present': sorted(sinks), 'sanitize_calls': obs['sanitize_calls'],
+           'how_to_rerun': "./check C20 --replay <this file> regenerates the data set from spec['sseed'] and repeats the run"}
+    # ---- (a)
+    problems = []
+    exp_cfg = exp_log = None
+    if m_cfg[0] == 0:
+        exp_cfg = dec_value(m_cfg[1][0], obs['side'])
+    else:
+        # the model says sanitising the configuration raises: the run must have died with that error
+        want = {1: 'ValueError', 2: 'RecursionError', 3: 'KeyError'}.get(m_cfg[1])
+        if obs.get('etype') != want or 'json' in sinks:
+            problems.append(f'model: sanitising the configuration raises code {m_cfg[1]}; run: {obs["error"]}')
+    if obs['raw_log'] is None:
+        problems.append('the raw log of the run could not be captured (no CommandLog created, no list passed to '
+                        'sanitize_paths)')
+    elif m_log[0] == 0:
+        exp_log = [uncodes(x) for x in m_log[1][1]]
+        exp_file = ''.join(uncodes(x) + '\n' for x in m_log[1][2])
+    else:
+        want = {1: 'ValueError', 2: 'RecursionError'}.get(m_log[1])
+        if obs.get('etype') != want or 'json' in sinks:
+            problems.append(f'model: sanitising the log raises code {m_log[1]}; run: {obs["error"]}')
+    if obs['raw_log_args_differ']:
+        problems.append('a list passed to sanitize_paths differs from the lines of the CommandLog')
+    agrees = {}
+    for name in ('json', 'hdf5'):
+        sk = sinks.get(name)
+        if sk is None:
+            continue
+        if 'unreadable' in sk:
+            problems.append(f'{name} record unreadable: {sk["unreadable"]}')
+            continue
+        agrees[f'{name}:config'] = exp_cfg is not None and sk['config'] == exp_cfg
+        agrees[f'{name}:log'] = exp_log is not None and sk['log'] == exp_log
+        if exp_cfg is not None and sk['config'] != exp_cfg:
+            problems.append(f'{name} config differs from the model: {sk["config"]!r} vs {exp_cfg!r}'[:900])
+        if exp_log is not None and sk['log'] != exp_log:
+            bad = [(a, b) for a, b in zip(sk['log'] or [], exp_log) if a != b][:1] if isinstance(sk['log'], list) else []
+            problems.append(f'{name} log differs from the model sanitisation of the raw log '
+                            f'({len(sk["log"]) if isinstance(sk["log"], list) else sk["log"]!r} vs {len(exp_log)} lines; '
+                            f'first differing pair {bad!r})'[:1500])
+    if 'log_file' in sinks:
+        agrees['log_file'] = exp_log is not None and sinks['log_file'] == exp_file
+        if exp_log is not None and sinks['log_file'] != exp_file:
+            problems.append('the log file differs from the model sanitisation of the raw log: '
+                            f'{sinks["log_file"][-400:]!r} vs {exp_file[-400:]!r}')
+    if problems:
+        ctx.disagreements_checked += 1
+        r2 = dict(rep)
+        r2['class'] = RUN_CORR
+        r2['problems'] = problems
+        r2['raw_log'] = obs['raw_log']
+        ctx.violation(f'cloud-safe run ({cls}, log_path {"given" if spec["log_path_given"] else "None"}, tmp_dir '
+                      f'{"given" if spec["tmp_dir_given"] else "None"}): records and Sanitize.run_sinks disagree: '
+                      + problems[0][:300], r2, no_input=True)
+    # ---- (b) the property: no absolute path of the host in any string of the records
+    original_words = set()
+    for s in strings_of(obs['config']):
+        original_words.update(s.split())
+    for s in obs['raw_log'] or []:
+        original_words.update(s.split())
+    seen = set()
+    n_leaks = 0
+    for where, s in sink_strings(sinks):
+        for leak in find_leaks(s, limit=20):
+            n_leaks += 1
+            c = leak_class(s, leak, original_words)
+            # a leak is put down to a recorded weakness of sanitize_paths only when the record is exactly what the
+            # model of sanitize_paths makes of the raw text: anything else did not come out of the sanitiser
+            if c not in KNOWN_LEAK_CLASSES or not agrees.get(where, False):
+                c = RUN_LEAK
+            if (c, where) in seen:
+                continue
+            seen.add((c, where))
+            i = leak[0]
+            r2 = dict(rep)
+            r2['class'] = c
+            r2['where'] = where
+            r2['leaked'] = leak[1]
+            r2['context'] = s[max(0, i - 120):i + len(leak[1]) + 60]
+            r2['record_equals_model'] = agrees.get(where, False)
+            ctx.violation(f'cloud-safe run ({cls}, log_path {"given" if spec["log_path_given"] else "None"}, tmp_dir '
+                          f'{"given" if spec["tmp_dir_given"] else "None"}; {obs["error"] or "succeeded"}): {where} '
+                          f'contains the absolute host path {leak[1]!r}: ...{r2["context"]!r}...'[:1200], r2)
+    # a cloud-safe run that should leave a record and leaves none cannot report at all
+    expects_record = cls in WRITES_RECORD or (cls == 'directory-as-file' and obs['detail'] != 'query')
+    if expects_record and not ('json' in sinks and 'hdf5' in sinks) and not problems:
+        r2 = dict(rep)
+        r2['class'] = RUN_NO_OUTPUT
+        ctx.violation(f'cloud-safe run ({cls}): no JSON / HDF5 record written ({sorted(sinks)}); {obs["error"]}', r2)
+    return n_leaks
+
+
+def run_cases(ctx):
+    import shutil
+    import cell_type_mapper
+    from harness import faults
+    if not faults.guard_on():
+        raise RuntimeError('CELL_TYPE_MAPPER_VERIF=1 is not set (run through ./check)')
+    mapper = pathlib.Path(cell_type_mapper.__file__).resolve().absolute().parent.parent
+    menc = enc_path(mapper)
+    n_scen = ctx.n(2, 14)
+    observations = []
+    t0 = __import__('time').time()
+    for si in range(n_scen):
+        sseed = ctx.rng.getrandbits(48)
+        top = ctx.scratch / f'runs{si}'
+        inp = make_run_inputs(top, sseed)
+        idx = 0
+        for cls in RUN_CLASSES:
+            for use_log in (False, True):
+                for use_tmp in (False, True):
+                    spec = run_spec(sseed, idx, cls, use_log, use_tmp)
+                    idx += 1
+                    obs = one_run(top, inp, spec)
+                    shutil.rmtree(obs.pop('dir'), ignore_errors=True)
+                    observations.append(obs)
+        shutil.rmtree(top, ignore_errors=True)
+    faults.uninstall()
+    ctx.extra['run_level_wall_s'] = round(__import__('time').time() - t0, 1)
+    # ---- the model: the configuration with the facts at its call, the log with the facts at its call
+    cases = []
+    for obs in observations:
+        side = []
+        fs, tbl = obs['facts_config']
+        cases.append((2002, [fs, tbl, menc, 1, enc_value(obs['config'], side), []]))
+        obs['side'] = side
+        raw = obs['raw_log'] or []
+        fs, tbl = obs['facts_log'] if obs['facts_log'] is not None else ([], [])
+        side2 = []
+        cases.append((2002, [fs, tbl, menc, 1, enc_value({'extended_result_dir': None, 'tmp_dir': None}, side2),
+                             [codes(x) for x in raw]]))
+    res = ctx.model(cases)
+    for k, obs in enumerate(observations):
+        spec = obs['spec']
+        cls = spec['run_class']
+        failed = obs['error'] is not None
+        expected_failure = cls != 'success'
+        fired = obs['fired']
+        if cls == 'worker-failure' and not fired:
+            ctx.dist('run', 'worker fault point not reached (control run)')
+            expected_failure = False
+        if failed != expected_failure:
+            # the scenario did not do what its class says: a harness problem, not a finding about C20
+            ctx.violation(f'run of class {cls} {"failed: " + str(obs["error"]) if failed else "succeeded"}',
+                          {'class': 'c20-run-setup', 'kind': 'run', 'spec': spec, 'config': obs['config'],
+                           'error': obs['error']}, no_input=True)
+        n_leaks = judge_run(ctx, obs, res[2 * k], res[2 * k + 1], menc)
+        has_tb = any('Traceback' in s for s in (obs['raw_log'] or []))
+        ctx.count(('run', spec['sseed'], spec['idx']), nontrivial=failed and has_tb)
+        ctx.dist('run', f'{cls}: ' + ('failed' if failed else 'ok') + ', records ' + '+'.join(sorted(obs['sinks'])))
+        ctx.dist('run_log_and_tmp', f'log_path {"given" if spec["log_path_given"] else "None"}, tmp_dir '
+                                    f'{"given" if spec["tmp_dir_given"] else "None"}')
+        if n_leaks:
+            ctx.dist('run', 'leaking records')
+        if failed and has_tb and spec['idx'] % 8 == 4:
+            tb = [s for s in obs['sinks'].get('json', {}).get('log') or [] if 'Traceback' in s]
+            if tb:
+                ctx.sample({'run': cls, 'error': obs['error'][:160], 'recorded_traceback': tb[0][-500:]}, limit=6)
+    ctx.extra['cloud_safe_runs'] = len(observations)
+
+
 def run(ctx):
     ctx.rule = ('sanitize_paths on strings built from message templates (paths bare, quoted, followed by , . ; : ) ] > '
                 'or glued to ( [ < { key= file:// ; python list / dict / JSON renderings; several blanks kinds) over a '
@@ -439,8 +888,23 @@ def run(ctx):
         'the file system does not change between the call and the scan',
         'dict keys are not sanitised by the code and are outside the scanned text',
     ]
+    ctx.rule += ('.  Run level: real run_mapping(cloud_safe=True) on generated data sets in generated directory layouts '
+                 '(directory and file names with blank-free punctuation): ' + ', '.join(RUN_CLASSES) + ', each with '
+                 'log_path None / given and tmp_dir None / given; non-trivial = the run failed and a traceback reached '
+                 'the log')
+    ctx.assumptions += [
+        'run level: the configuration is sanitised when the run starts and the log when it ends; the model is given the '
+        'file-system facts observed at each of the two calls (harness-side wrapper of the module-level name '
+        'sanitize_paths in cli/from_specified_markers.py and cli/cli_log.py), the scan looks at the file system as it '
+        'is when the run has returned',
+        'run level: a leak is attributed to a recorded weakness of sanitize_paths (F10, F14, F18) only when the record '
+        'holding it equals the model sanitisation of the raw text; a query file that is missing or unreadable makes the '
+        'finally block of run_mapping raise before the JSON / HDF5 records are written (only the log file is scanned '
+        'then)',
+    ]
     parse_cases(ctx)
     sanitize_cases(ctx)
+    run_cases(ctx)
 
 
 def replay(ctx, rec):
@@ -453,4 +917,36 @@ def replay(ctx, rec):
             print('implementation now raises', exc_class(e), e)
         print('(the directory tree of the original run is gone; the recorded model input is under '
               '"existing" / "resolve")')
+    if rec.get('kind') == 'run':
+        import cell_type_mapper
+        spec = rec['spec']
+        top = ctx.scratch / 'replay'
+        inp = make_run_inputs(top, spec['sseed'])
+        obs = one_run(top, inp, spec)
+        mapper = pathlib.Path(cell_type_mapper.__file__).resolve().absolute().parent.parent
+        menc = enc_path(mapper)
+        side = []
+        fs, tbl = obs['facts_config']
+        fs2, tbl2 = obs['facts_log'] if obs['facts_log'] is not None else ([], [])
+        res = ctx.model([(2002, [fs, tbl, menc, 1, enc_value(obs['config'], side), []]),
+                         (2002, [fs2, tbl2, menc, 1, enc_value({'extended_result_dir': None, 'tmp_dir': None}, []),
+                                 [codes(x) for x in obs['raw_log'] or []]])])
+        obs['side'] = side
+        print('run now:', obs['error'] or 'succeeded', '; records:', sorted(obs['sinks']))
+
+        class Collect:          # judge without writing replay files over the recorded ones
+            disagreements_checked = 0
+            found = []
+
+            def violation(self, what, rep, no_input=False):
+                known = [k['id'] for k in ctx.known if k['match'] == rep.get('class')]
+                self.found.append((known[0] if known else None, rep.get('class'), what))
+        col = Collect()
+        n = judge_run(col, obs, res[0], res[1], menc)
+        for known, c, what in col.found:
+            print(f'known finding {known}:' if known else f'STILL FAILS [{c}]:', what[:600])
+        print('leaks found now:', n)
+        import shutil
+        shutil.rmtree(ctx.scratch, ignore_errors=True)
+        return 1 if any(k is None for k, _, _ in col.found) else 0
     return 0
